@@ -3,6 +3,9 @@ import OmbottModel.Lemmas.RouterGet
 import OmbottModel.Lemmas.RouterPrio
 import OmbottModel.Lemmas.RouterIns
 import OmbottModel.Lemmas.RouterResolve
+import OmbottModel.Lemmas.RouterParse
+import OmbottModel.Lemmas.RouterPrint
+import OmbottModel.Lemmas.RouterSound
 /-!
 C01 — Route resolution equals the plain rule-by-rule semantics.
 Property theorems only; helper lemmas live in `Lemmas/Router*.lean`.
@@ -42,6 +45,30 @@ theorem insert_denote (t t' : Node) (pat : List Sym) (d : Nat) (names : List Str
   intro e
   have := (insN_spec _ t h pat t' hi).2.2.2 e
   simpa [newRule, denote] using this
+
+/-- **Domain of the history theorems.**  The hypothesis `OpOK` they carry ("the parsed pattern
+has no literal marker character") holds for every registration whose rule text does not contain
+the router's own wildcard marker (CR): the literal characters of a parsed pattern all come from
+the rule text. -/
+theorem rule_without_marker_ok (cenv : CompileEnv) (a : AddArgs) (hr : Gen.paramToken ∉ a.rule) :
+    OpOK (.add cenv a) := opOK_of_no_marker cenv a hr
+
+/-- the parser lists exactly one parameter name per wildcard of the pattern -/
+theorem one_name_per_wildcard (cenv : CompileEnv) (rule : Str) (p : Parsed)
+    (h : parseRule cenv rule = .ok p) : p.params.length = countToks p.syms :=
+  parseRule_params_len h
+
+/-- **Rule syntax flavours.**  For every abstract rule (literal runs without parameter tokens,
+wildcards with identifier names, filter names other than `path`, filter arguments without
+parentheses or backslash for the `(…)` forms and without the closing delimiter for the
+`:arg` form) written in any admissible mix of flavours (`:x`, `:`, `<x>`, `{x}`, `<x:f>`,
+`<:f>`, `<x.f>`, `<x.f(a)>`, `<f(a)>`, `<x:f(a)>`, `<:f(a)>`, `<x:f:a>`, `<:f:a>`, each with `<>` or
+`{}`), `Route.parse_rule` returns the abstract rule's pattern, names and filters, whenever its
+filters can be built.  In particular the result does not depend on the flavours chosen. -/
+theorem parse_print (cenv : CompileEnv) (segs : List ASeg) (h : SegsOK segs)
+    (hb : FiltersBuild cenv segs) :
+    parseRule cenv (printRule segs) = .ok (absParsed segs 0) := by
+  rw [parseRule_printRule cenv segs h, parseParts_abs cenv segs h hb 0]
 
 /-- after every history of `add` / `remove_method` calls the tree is well formed and holds
 exactly the rules the `routes` table lists -/
@@ -169,6 +196,82 @@ theorem filter_guard (upper : Str → Str) (ops : List Op) (hok : ∀ op ∈ ops
   obtain ⟨f, s, r, _, h2, h3, h4, h5⟩ := matchRule_vals hm v hv
   exact ⟨f, s, r, h2, h3, h4, h5⟩
 
+/-- **Soundness for every filter environment, `rex` selectors included.**  Whatever the filters
+answer (no `NoSel` hypothesis, no well-formedness needed), a hit of `RadiDict.get` is a rule held
+by the tree whose pattern matches the path in the selector-aware sense `MatchSel` (after a
+wildcard whose filter answered with selector `s`, the rest of the pattern matches the remaining
+text or `str(s)` + the remaining text), with exactly the values the filters answered. -/
+theorem get_sound (env : FilterEnv) (t : Node) (path : Str) (d : Nat) (keys : List Str) (vs : List Val)
+    (h : (treeGet env t path).core = some (d, keys, vs)) :
+    ∃ rule ∈ denote t, rule.data = d ∧ rule.keys = keys ∧ MatchSel env rule.pat path vs := by
+  obtain ⟨rule, hm, h1, h2, vs', h3, h4⟩ := getN_sound env t _ path d keys vs h
+  simp only [List.nil_append] at h3
+  subst h3
+  exact ⟨rule, hm, h1, h2, h4⟩
+
+/-- **No handler without a match, for every filter environment.**  After any history, if
+`resolve` hands a request to a handler then the rule text that handler was registered with
+matches the path (selector-aware), the kwargs are that rule's own names zipped with the values
+of that match, and every value is what the filter of one of the rule's wildcards answered on a
+non-empty piece of text: a text the filter rejects never reaches a handler, `rex` included. -/
+theorem handler_called_only_on_match (upper : Str → Str) (ops : List Op) (hok : ∀ op ∈ ops, OpOK op)
+    (env : FilterEnv) (path : Str) (ms : List Str)
+    (h : Nat) (mname : Str) (kw : List (Str × Val)) (hooks : List (Nat × HookPair))
+    (hres : (Router.run upper ops).resolve env path ms = .found h mname kw hooks) :
+    ∃ cenv a p vs, Op.add cenv a ∈ ops ∧ a.handler = h ∧ mname ∈ a.methods.map upper ∧
+      parseRule cenv a.rule = .ok p ∧ MatchSel env p.syms (stripSlash path) vs ∧
+      kw = makeParamsDict p.params vs ∧
+      ∀ k v, (k, v) ∈ kw → ∃ f s r, Sym.tok f ∈ p.syms ∧ s ≠ [] ∧ tokRes env f s = some r ∧ r.val = v := by
+  have hinv := run_inv upper ops hok
+  have hent := run_entries upper ops hok
+  generalize Router.run upper ops = R at hinv hent hres
+  unfold Router.resolve at hres
+  cases hg : treeGet env R.tree (stripSlash path) with
+  | miss v hh p => rw [hg] at hres; cases hres
+  | hit id keys vals hk =>
+    rw [hg] at hres
+    simp only at hres
+    obtain ⟨rule, hmem, rfl, rfl, hms⟩ :=
+      get_sound env R.tree (stripSlash path) id keys vals (by rw [hg]; rfl)
+    obtain ⟨ps, id', r, _, hr, heq⟩ := (mem_rules R _).mp ((hinv.den _).mp hmem)
+    subst heq
+    simp only [hr] at hres
+    cases hgi : r.getItem ms with
+    | error e => rw [hgi] at hres; cases hres
+    | ok m =>
+      rw [hgi] at hres
+      simp only [Resolved.found.injEq] at hres
+      obtain ⟨rfl, rfl, rfl, _⟩ := hres
+      obtain ⟨name, hmm⟩ := getItem_mem hgi
+      obtain ⟨op, hop, hst⟩ := hent _ r name m hr hmm
+      cases op with
+      | removeMethod _ _ => exact hst.elim
+      | add cenv a =>
+        obtain ⟨p, hp, hps, hname, rfl⟩ := hst
+        have hkw : makeParamsDict (if p.params.isEmpty = true then r.params else p.params) vals =
+            makeParamsDict p.params vals := by
+          split
+          · rename_i hemp
+            have hnil : p.params = [] := by simpa using hemp
+            have hlen := parseRule_params_len hp
+            have hvs := hms.length
+            have htc : ∀ q : List Sym, tokCount q = countToks q := by
+              intro q; induction q with
+              | nil => rfl
+              | cons x xs ih => cases x <;> simp [tokCount, countToks, ih]
+            rw [hnil] at hlen
+            simp only at hvs
+            rw [← hps, htc, ← hlen] at hvs
+            have : vals = [] := List.eq_nil_of_length_eq_zero hvs
+            rw [this, hnil, makeParamsDict_nil_vals, makeParamsDict_nil_vals]
+          · rfl
+        refine ⟨cenv, a, p, vals, hop, rfl, hname, hp, by rw [hps]; exact hms, hkw, ?_⟩
+        intro k v hkv
+        rw [hkw] at hkv
+        have hv : v ∈ vals := (List.of_mem_zip (makeParamsDict_mem hkv).1).2
+        obtain ⟨f, s, r', h1, h2, h3, h4⟩ := hms.vals v hv
+        exact ⟨f, s, r', by rw [hps]; exact h1, h2, h3, h4⟩
+
 /-- "not found" is answered exactly when the tree lookup finds no route -/
 theorem resolve_notFound_iff_miss (env : FilterEnv) (R : Router) (path : Str) (ms : List Str) :
     (∃ v h p, R.resolve env path ms = .notFound v h p) ↔
@@ -181,5 +284,147 @@ theorem resolve_notFound_iff_miss (env : FilterEnv) (R : Router) (path : Str) (m
     cases ho : R.obj? id with
     | none => simp
     | some r => cases hgi : r.getItem ms <;> simp [hgi]
+
+
+
+/-! ## Non-vacuity: concrete instances meeting the hypotheses -/
+section NonVacuity
+
+/-- an `int` filter on ASCII digits, no selectors -/
+def nvEnv : FilterEnv := fun f s =>
+  if f = "int(None)".toList then
+    (if s.takeWhile Char.isDigit = [] then none
+     else some ⟨.conv ("int:".toList ++ s.takeWhile Char.isDigit), (s.takeWhile Char.isDigit).length, none⟩)
+  else none
+
+theorem nvEnv_noSel : NoSel nvEnv := by
+  intro f s r h
+  unfold nvEnv at h
+  split at h
+  · split at h
+    · cases h
+    · simp only [Option.some.injEq] at h; subst h; rfl
+  · cases h
+
+def nvCenv : CompileEnv := fun _ => none
+
+/-- `/a/<x:int>` (GET), a rejected `/a/:y` (filter mismatch), `/a/<z:int>` (POST, same pattern,
+other name), `/a/b` (GET, ANY), removal of ANY -/
+def nvOps : List Op :=
+  [ .add nvCenv { rule := "/a/<x:int>".toList, methods := ["get".toList], handler := 0 },
+    .add nvCenv { rule := "/a/:y".toList, methods := ["POST".toList], handler := 1 },
+    .add nvCenv { rule := "/a/<z:int>".toList, methods := ["POST".toList], handler := 2 },
+    .add nvCenv { rule := "/a/b".toList, methods := ["GET".toList, "ANY".toList], handler := 3 },
+    .removeMethod 1 ["ANY".toList] ]
+
+theorem opOK_of_parse {cenv : CompileEnv} {a : AddArgs} {p : Parsed}
+    (h : parseRule cenv a.rule = .ok p) (hn : NoLitTok p.syms) : OpOK (.add cenv a) := by
+  intro p' hp'; rw [h] at hp'; cases hp'; exact hn
+
+theorem nvOps_ok : ∀ op ∈ nvOps, OpOK op := by
+  intro op hop
+  simp only [nvOps, List.mem_cons, List.not_mem_nil, or_false] at hop
+  -- (directly; `rule_without_marker_ok` with `by decide` on the rule text works as well)
+  rcases hop with rfl | rfl | rfl | rfl | rfl
+  · exact opOK_of_parse (p := ⟨[.lit 'a', .lit '/', .tok (some "int(None)".toList)], ["x".toList],
+      [.lit 'a', .lit '/', .tok (some "int(None)".toList)]⟩) (by rfl)
+      (by intro c hc; simp at hc; rcases hc with rfl | rfl <;> decide)
+  · exact opOK_of_parse (p := ⟨[.lit 'a', .lit '/', .tok none], ["y".toList],
+      [.lit 'a', .lit '/', .tok none]⟩) (by rfl)
+      (by intro c hc; simp at hc; rcases hc with rfl | rfl <;> decide)
+  · exact opOK_of_parse (p := ⟨[.lit 'a', .lit '/', .tok (some "int(None)".toList)], ["z".toList],
+      [.lit 'a', .lit '/', .tok (some "int(None)".toList)]⟩) (by rfl)
+      (by intro c hc; simp at hc; rcases hc with rfl | rfl <;> decide)
+  · exact opOK_of_parse (p := ⟨[.lit 'a', .lit '/', .lit 'b'], [], [.lit 'a', .lit '/', .lit 'b']⟩) (by rfl)
+      (by intro c hc; simp at hc; rcases hc with rfl | rfl | rfl <;> decide)
+  · trivial
+
+def nvT1 : Node :=
+  match treeAdd Node.root [.lit 'a', .lit '/', .tok none] 0 ["x".toList] with
+  | .ok t => t
+  | .error _ => Node.root
+
+def nvT2 : Node :=
+  match treeAdd nvT1 [.lit 'a', .lit '/', .lit 'b', .lit 'c'] 1 [] with
+  | .ok t => t
+  | .error _ => Node.root
+
+/-- `get_eq_spec`, `insert_wf`, `insert_denote`: a tree with a literal and a wildcard sibling
+(the second insertion splits a key); the lookup backtracks from the literal child to the wildcard -/
+example : treeAdd Node.root [.lit 'a', .lit '/', .tok none] 0 ["x".toList] = .ok nvT1 ∧
+    treeAdd nvT1 [.lit 'a', .lit '/', .lit 'b', .lit 'c'] 1 [] = .ok nvT2 ∧ WFN nvT2 ∧
+    (treeGet nvEnv nvT2 "a/bd".toList).core = some (0, ["x".toList], [.str "bd".toList]) ∧
+    (treeGet nvEnv nvT2 "a/bc".toList).core = some (1, [], []) :=
+  ⟨by rfl, by rfl,
+   insert_wf nvT1 nvT2 [.lit 'a', .lit '/', .lit 'b', .lit 'c'] 1 [] false
+     (insert_wf Node.root nvT1 [.lit 'a', .lit '/', .tok none] 0 ["x".toList] false root_wf.1 (by rfl)) (by rfl),
+   by rfl, by rfl⟩
+
+/-- `resolve_eq_rule_by_rule`, `params_are_rule_names`, `filter_guard`: the POST handler of
+`/a/<z:int>` gets `z` (not `x`, the name the pattern was first registered with), bound to the
+converted value -/
+example : (Router.run asciiUpper nvOps).resolve nvEnv "/a/12".toList ["POST".toList, "ANY".toList] =
+    .found 2 "POST".toList [("z".toList, .conv "int:12".toList)] [] := by decide +kernel
+
+/-- `rule_without_marker_ok`: the hypothesis is decidable on the rule text -/
+example : OpOK (.add nvCenv { rule := "/a/<x:int>".toList, methods := [], handler := 0 }) :=
+  rule_without_marker_ok _ _ (by decide)
+
+/-- `parse_print`: `/a/<x:int>-{y.re(b+)}/:z` -/
+def nvSegs : List ASeg :=
+  [.lit "a/".toList, .wild (.colonFilter .angle) (some "x".toList) (some "int".toList) none,
+   .lit "-".toList, .wild (.dotParen .brace) (some "y".toList) (some "re".toList) (some "b+".toList),
+   .lit "/".toList, .wild .colon (some "z".toList) none none]
+
+theorem isIdent_of {c : Char} {r : Str} (hc : isNameStart c = true) (hr : r.all isWord = true) :
+    IsIdent (c :: r) := ⟨c, r, rfl, hc, fun x hx => List.all_eq_true.mp hr x hx⟩
+
+example : printRule nvSegs = "/a/<x:int>-{y.re(b+)}/:z".toList ∧ SegsOK nvSegs ∧ FiltersBuild nvCenv nvSegs := by
+  refine ⟨by decide, ?_, ?_⟩
+  · simp only [nvSegs, SegsOK, WildOK]
+    refine ⟨by decide, by decide, trivial, ⟨?_, ?_, by simp⟩, trivial, by decide, by decide, trivial,
+      ⟨?_, ?_, by simp⟩, trivial, by decide, by decide, trivial, ⟨?_, ?_, by simp⟩, trivial, trivial⟩
+    · intro n hn; cases hn; exact isIdent_of (by decide) (by decide)
+    · intro f hf; cases hf; exact ⟨isIdent_of (by decide) (by decide), by decide⟩
+    · intro n hn; cases hn; exact isIdent_of (by decide) (by decide)
+    · intro f hf; cases hf; exact ⟨isIdent_of (by decide) (by decide), by decide⟩
+    · intro n hn; cases hn; exact isIdent_of (by decide) (by decide)
+    · intro f hf; cases hf
+  · simp only [nvSegs, FiltersBuild]
+    refine ⟨?_, ?_, ?_, trivial⟩
+    · intro f hf; cases hf; exact ⟨rfl, by decide⟩
+    · intro f hf; cases hf; exact ⟨rfl, by decide⟩
+    · intro f hf; cases hf
+
+/-- a `rex` filter with two groups: answers with a selector -/
+def nvEnvSel : FilterEnv := fun f s =>
+  if f = "rex((a)|(b))".toList then
+    match s with
+    | 'a' :: _ => some ⟨.str ['a'], 1, some 1⟩
+    | 'b' :: _ => some ⟨.str ['b'], 1, some 2⟩
+    | _ => none
+  else none
+
+def nvOpsSel : List Op :=
+  [ .add nvCenv { rule := "/<x.rex((a)|(b))[1]>z".toList, methods := ["GET".toList], handler := 0 },
+    .add nvCenv { rule := "/<y.rex((a)|(b))>b".toList, methods := ["GET".toList], handler := 1 } ]
+
+/-- `get_sound`, `handler_called_only_on_match`: the selector route (`str(1) + "z"` against the
+pattern text `1z`) and the fall-back on the text itself -/
+example : (∀ op ∈ nvOpsSel, OpOK op) ∧
+    (Router.run asciiUpper nvOpsSel).resolve nvEnvSel "/az".toList ["GET".toList] =
+      .found 0 "GET".toList [("x".toList, .str ['a'])] [] ∧
+    (Router.run asciiUpper nvOpsSel).resolve nvEnvSel "/bb".toList ["GET".toList] =
+      .found 1 "GET".toList [("y".toList, .str ['b'])] [] := by
+  refine ⟨?_, by decide +kernel, by decide +kernel⟩
+  intro op hop
+  simp only [nvOpsSel, List.mem_cons, List.not_mem_nil, or_false] at hop
+  rcases hop with rfl | rfl <;> exact rule_without_marker_ok _ _ (by decide)
+
+/-- the filter rejects: not found -/
+example : (Router.run asciiUpper nvOps).resolve nvEnv "/a/x".toList ["POST".toList, "ANY".toList] =
+    .notFound [] [] "a/".toList := by decide +kernel
+
+end NonVacuity
 
 end Ombott.Router
